@@ -584,6 +584,13 @@ class PyCdlibRockRidge:
         # a real duplicate, which is left to the PyCdlib object to refuse.
         iso_parent = iso_parent_path.decode('utf-8')
         if self._rr_name_of_iso_path(iso_parent + '/' + iso_name) not in (None, rr_name):
+            if not is_dir and self.pycdlib_obj.interchange_level in (2, 3):
+                # In levels 2 and 3 the limit of 30 applies to the length of
+                # the filename and of the extension together.  The number can
+                # make the filename longer than it was, so shorten the
+                # extension (in front of the version) if there is no room.
+                (extonly, version) = ext.split(';')
+                ext = extonly[:30 - len(basename[:5]) - 3] + ';' + version
             for currnum in range(0, 1000):
                 if is_dir:
                     tmp = '%s%.03d' % (basename[:5], currnum)
